@@ -399,6 +399,31 @@ func poolEscapes(p *Prog) (out []gFinding) {
 			}
 			key := fieldOf(ci.Common().Args[1])
 			if key == "" {
+				// a pooled *bytes.Buffer: its Bytes() must not reach what the function returns
+				// (parsers such as encoding/asn1 keep sub-slices of their input in the result)
+				bv := stripConv(ci.Common().Args[1])
+				if !strings.HasSuffix(bv.Type().String(), "bytes.Buffer") {
+					continue
+				}
+				n[fn]++
+				where := ""
+				for _, bc := range p.callsIn(fn, "(*bytes.Buffer).Bytes") {
+					if stripConv(bc.Common().Args[0]) != bv {
+						continue
+					}
+					for _, r := range returnsOf(fn) {
+						for i := range r.Results {
+							if _, isErr := r.Results[i].Type().Underlying().(*types.Interface); isErr && isErrorType(r.Results[i].Type()) {
+								continue
+							}
+							if dependsOn(retVal(r, i), func(x ssa.Value) bool { return x == bc.Value() }) {
+								where = p.Pos(r.Pos())
+							}
+						}
+					}
+				}
+				out = append(out, gFinding{Key: fmt.Sprintf("%s pools a buffer#%d", p.FName(fn), n[fn]), Pos: p.Pos(ci.Pos()), OK: where == "",
+					Detail: "the bytes of a buffer that goes back into a sync.Pool flow into the value returned at " + where + ": structures parsed from those bytes keep sub-slices of them (asn1 RawContent / RawValue / FullBytes), so the next user of the pooled buffer overwrites a result the caller still holds"})
 				continue
 			}
 			n[fn]++
@@ -415,6 +440,56 @@ func poolEscapes(p *Prog) (out []gFinding) {
 			}
 			out = append(out, gFinding{Key: fmt.Sprintf("%s pools %s#%d", p.FName(fn), key, n[fn]), Pos: p.Pos(ci.Pos()), OK: where == "",
 				Detail: fmt.Sprintf("the memory of %s is put into a sync.Pool here and is also returned uncopied by %s: the caller's result and the next user of the pool share one backing array, so a result is overwritten while it is still in use", key, where)})
+		}
+	}
+	return
+}
+
+// poolDoublePut: a method that hands an object held in a field of its receiver back to a
+// sync.Pool must forget it (store nil into the field, or be guarded by a done flag): otherwise
+// calling the method twice — a deferred Close plus an explicit one — puts one object into the
+// pool twice and two later users share it.
+func poolDoublePut(p *Prog) (out []gFinding) {
+	n := map[*ssa.Function]int{}
+	for _, fn := range p.Funcs {
+		if fn.Signature.Recv() == nil {
+			continue
+		}
+		for _, ci := range p.callsIn(fn, "(*sync.Pool).Put") {
+			if len(ci.Common().Args) < 2 {
+				continue
+			}
+			v := stripConv(ci.Common().Args[1])
+			// loaded from a field of the receiver?
+			var key string
+			switch x := v.(type) {
+			case *ssa.UnOp:
+				if x.Op == token.MUL {
+					key = p.memKey(x.X)
+				}
+			case *ssa.Field:
+				if tn, f, _ := p.fieldLoad(x); tn != "" {
+					key = "f:" + tn + "." + f
+				}
+			}
+			if !strings.HasPrefix(key, "f:") {
+				continue
+			}
+			n[fn]++
+			cleared := false
+			for _, b := range fn.Blocks {
+				for _, in := range b.Instrs {
+					if st, ok := in.(*ssa.Store); ok && p.memKey(st.Addr) == key && isNilConst(st.Val) {
+						cleared = true
+					}
+				}
+			}
+			// a value receiver cannot clear anything for the next call
+			if _, isPtr := fn.Signature.Recv().Type().(*types.Pointer); !isPtr {
+				cleared = false
+			}
+			out = append(out, gFinding{Key: fmt.Sprintf("%s pools its %s#%d", p.FName(fn), key, n[fn]), Pos: p.Pos(ci.Pos()), OK: cleared,
+				Detail: "the object held in " + key + " is put into a sync.Pool but stays in the receiver: a second call of this method (a deferred Close next to an explicit one) pools the same object again, and two concurrent users then get the same object"})
 		}
 	}
 	return
